@@ -316,12 +316,16 @@ class Tr9(Tr):
         if isinstance(n, ast.Name):
             if n.id not in self.env:
                 raise Unsupported(f"name {n.id}")
+            if self.env[n.id] == "OwnNet":
+                return "s.net", "Net"          # a local that aliases the scenario's own (mutable) LaneletNetwork
             return self.narrowed(n, self.local(n.id), self.env[n.id])
         if isinstance(n, ast.Attribute):
             if isinstance(n.value, ast.Name) and n.value.id == "self":
                 if n.attr in SELF_ATTRS:
                     if self.t.static:
                         raise Unsupported("self in a static method")
+                    if n.attr == "_id_counter" and self.narrow.get(self.key(n)) == "some":
+                        return "(s.counter.getD 0)", "Nat"        # read behind `is not None`
                     return SELF_ATTRS[n.attr]
                 raise Unsupported(f"attribute self.{n.attr}")
             bt, bty = self.e(n.value)
@@ -616,6 +620,10 @@ class Tr9(Tr):
     def self_attr(self, n):
         return isinstance(n, ast.Attribute) and isinstance(n.value, ast.Name) and n.value.id == "self"
 
+    def own_net(self, n):
+        return (self.self_attr(n) and n.attr in ("_lanelet_network", "lanelet_network")) \
+            or (isinstance(n, ast.Name) and self.env.get(n.id) == "OwnNet")
+
     def mutates_state(self, stmts):
         for s in self.walk_stmts(stmts):
             tg = []
@@ -634,6 +642,8 @@ class Tr9(Tr):
                 if self.self_attr(f) and f.attr not in DROPPED_PROCS and any(t.func == f.attr and t.kind == "proc" for t in self.all):
                     return True
                 if self.self_attr(f.value) and f.value.attr in SELF_FIELD:
+                    return True
+                if isinstance(f.value, ast.Name) and f.attr in NET_UPDATE and (self.env.get(f.value.id) in ("OwnNet", None)):
                     return True
         return False
 
@@ -665,7 +675,7 @@ class Tr9(Tr):
         out = []
 
         def add(name):
-            if name in self.env and self.env[name] != "Reg" and name not in out:
+            if name in self.env and self.env[name] not in ("Reg", "OwnNet") and name not in out:
                 out.append(name)
         for s in self.walk_stmts(stmts):
             if isinstance(s, ast.Assign):
@@ -771,6 +781,9 @@ class Tr9(Tr):
                 ty = self.infer_list_type(name, rest)
                 self.env[name] = ty
                 return f"let {self.local(name)} : {lean_type(ty)} := []\n{self.block(rest, ctx)}"
+            if self.own_net(value) and not self.reassigns_net(rest):
+                self.env[name] = "OwnNet"
+                return self.block(rest, ctx)
             v, ty = self.e(value)
             pre = self.take_pre()
             if ty == "Reg":
@@ -805,6 +818,17 @@ class Tr9(Tr):
             pre = self.take_pre()
             return self.wrap(pre, self.set_state(dty[1], f"dictSet {d} {k}", rest, ctx), ctx)
         raise Unsupported("assignment target")
+
+    def reassigns_net(self, stmts):
+        for x in self.walk_stmts(stmts):
+            if isinstance(x, (ast.Assign, ast.AnnAssign)):
+                for t in (x.targets if isinstance(x, ast.Assign) else [x.target]):
+                    if self.self_attr(t) and t.attr == "_lanelet_network":
+                        return True
+            if isinstance(x, ast.Expr) and isinstance(x.value, ast.Call) and self.self_attr(x.value.func) \
+                    and x.value.func.attr in ("add_objects", "erase_lanelet_network", "replace_lanelet_network"):
+                return True
+        return False
 
     def infer_list_type(self, name, rest):
         """element type of a list that starts empty: from the first `name.append(x)` / `name += [..]` that follows"""
@@ -876,7 +900,7 @@ class Tr9(Tr):
                 return self.wrap(pre, self.set_state("idSet", f"PyC09.setDiffUpdate s.idSet {self.coerce(a, ta, S)}", rest, ctx), ctx)
             raise Unsupported(f"_id_set.{f.attr}")
         # in-place updates of the lanelet network held by the scenario
-        if rty == "Net" and f.attr in NET_UPDATE and self.self_attr(f.value):
+        if rty == "Net" and f.attr in NET_UPDATE and self.own_net(f.value):
             tmpl, atys = NET_UPDATE[f.attr]
             if len(c.args) != len(atys):
                 raise Unsupported(f"arity of {f.attr}")
